@@ -250,6 +250,27 @@ def run(ctx):
     r1.check(uses_enc or enc_fn is None, "src/gwf/backends/local.py::encode::encoder", "encode() serialises with the encoder that knows LocalStatus (cls= / default=)",
              "encode() calls json.dumps without cls=/default=: a reply that carries task states (LocalStatus members) cannot be serialised, every state query of the local "
              "backend fails", enc_fn.where if enc_fn is not None else enc.where)
+    # ... decided by evaluating the encoder's default() on every member (and on a value it does not know, which must be refused as json does)
+    from ..symeval import PureInterp, Obj, Raised, Unsupported
+    from ..consteval import EnumVal as _EV
+
+    def _refuse(*a, **k):
+        raise Raised("TypeError", "Object is not JSON serializable")
+    ip_ = PureInterp(ctx, hooks={"json.JSONEncoder.default": _refuse, "json.encoder.JSONEncoder.default": _refuse, "attr:default": lambda recv, *a: _refuse()})
+    enc_self = Obj("encoder", **{"__class__": enc.cls})
+    try:
+        names_ = {}
+        for m_ in enum_members(idx, idx.cls(f"{LOCAL}:LocalStatus")):
+            try:
+                names_[m_] = ip_.call(enc, (_EV(f"{LOCAL}.LocalStatus", m_),), {}, self_obj=enc_self)
+            except Raised as exc_:
+                names_[m_] = f"<raises {exc_.kind}>"
+        enc_ok = all(v_ == k_ for k_, v_ in names_.items())
+        if not enc_ok:
+            r1.violation("src/gwf/backends/local.py::CustomEncoder.default::members", f"the pool's JSON encoder maps the task states to {names_}: a reply that carries task states cannot be "
+                         "serialised (or carries something the client's LocalStatus[name] does not find), so every state query of the local backend fails", enc.where)
+    except Unsupported:
+        pass
     r1.check(enc_ok and dec_ok, "src/gwf/backends/local.py::wire-state-encoding", "states travel by member name (encoder .name / decoder LocalStatus[name])",
              "the pool encodes task states differently from how the client decodes them", enc.where)
 
